@@ -322,6 +322,10 @@ func (ch *channel) receivedSegData(rsd recSegData) {
 				log.Error("Failed to generate segment times", "err", err)
 			}
 		}
+		// Remove old segments after the MPD has been updated, so that it does not list removed segments
+		if ch.maxNrBufSegs > 0 && rsd.seqNr >= ch.maxNrBufSegs {
+			removeOldSegments(log, filepath.Join(ch.dir, name), rsd.seqNr-ch.maxNrBufSegs)
+		}
 
 		if ch.masterSegDuration == 0 && ch.isMasterTrack(name) {
 			// Evaluate at least two durations to see if the are the same
